@@ -81,9 +81,11 @@ pub enum Step {
     Drain(u64),
     Merge(u8),
     Take(bool),
+    /// the caller persists the changesets and keeps the post state: reverts detached from the held bundle
+    DetachReverts,
 }
 
-const TX_KINDS: usize = 8;
+const TX_KINDS: usize = 9;
 
 fn tx_of(kind: usize, sender: usize, nonce: u64) -> TxEnv {
     let word = |v: u64| { let mut w = [0u8; 32]; w[24..].copy_from_slice(&v.to_be_bytes()); w };
@@ -95,6 +97,7 @@ fn tx_of(kind: usize, sender: usize, nonce: u64) -> TxEnv {
         4 => (TxKind::Call(a(FACTORY)), child_init(), 0),                         // create2 child (with storage)
         5 => (TxKind::Call(child_address()), vec![], 0),                          // destroy the child (if it exists)
         6 => (TxKind::Call(a(EMPTY)), vec![], 0),                                 // touch an existing empty account
+        8 => (TxKind::Call(a(DESTROYER)), vec![], 4),                             // value to the destroyer (re-creates the address once it is gone)
         _ => (TxKind::Call(a(RCV)), vec![], 3),                                   // plain value transfer
     };
     TxEnv {
@@ -127,7 +130,14 @@ where
 {
     let mut out = Vec::new();
     for (addr, slots) in universe() {
-        let info = db.basic(addr).unwrap();
+        // an error of the state object is an observable like any other value
+        let info = match db.basic(addr) {
+            Ok(i) => i,
+            Err(e) => {
+                out.push(format!("{addr:x}: error {e:?}"));
+                continue;
+            }
+        };
         out.push(format!("{addr:x}: {}", grevm::verif::digest::info(info.as_ref())));
         if let Some(i) = &info &&
             i.code_hash != KECCAK_EMPTY
@@ -135,7 +145,10 @@ where
             out.push(format!("{addr:x} code {:?}", db.code_by_hash(i.code_hash).map(|c| c.hash_slow())));
         }
         for s in slots {
-            out.push(format!("{addr:x}[{s}] = {:x}", db.storage(addr, U256::from(s)).unwrap()));
+            match db.storage(addr, U256::from(s)) {
+                Ok(v) => out.push(format!("{addr:x}[{s}] = {v:x}")),
+                Err(e) => out.push(format!("{addr:x}[{s}] = error {e:?}")),
+            }
         }
     }
     out
@@ -230,6 +243,13 @@ pub fn run_history(steps: &[Step], spec: SpecId, prepopulated: bool) -> HistResu
                 par.merge_transitions(retention(*k));
                 seq.merge_transitions(retention(*k));
             }
+            Step::DetachReverts => {
+                let x = par.bundle_state.take_all_reverts();
+                let y = seq.bundle_state.take_all_reverts();
+                if x != y {
+                    return fail("detached reverts differ".into());
+                }
+            }
             Step::Take(parallel) => {
                 seq.merge_transitions(BundleRetention::Reverts);
                 let x = if *parallel {
@@ -277,7 +297,8 @@ pub fn run_history(steps: &[Step], spec: SpecId, prepopulated: bool) -> HistResu
 
 fn gen_history(rng: &mut StdRng, len: usize) -> Vec<Step> {
     (0..len)
-        .map(|_| match rng.random_range(0..12) {
+        .map(|_| match rng.random_range(0..13) {
+            12 => Step::DetachReverts,
             0..=7 => Step::Tx(rng.random_range(0..TX_KINDS), rng.random_range(0..3)),
             8 => Step::Increment([STORE, RCV, EMPTY, DESTROYER][rng.random_range(0..4)], rng.random_range(1..50)),
             9 => Step::Drain([STORE, RCV, DESTROYER][rng.random_range(0..3)]),
@@ -312,6 +333,12 @@ pub fn cmd(a: &Value) -> Value {
             }
         }
     }
+    // consecutive blocks on one state object whose caller detaches the reverts in between
+    for x in 0..TX_KINDS {
+        for y in [0usize, 1, 2, 3, 5, 8] {
+            histories.push(vec![Step::Tx(x, 0), Step::Merge(0), Step::DetachReverts, Step::Tx(y, 1), Step::Take(true)]);
+        }
+    }
     while histories.len() < runs {
         let len = rng.random_range(3..9);
         histories.push(gen_history(&mut rng, len));
@@ -343,4 +370,146 @@ pub fn cmd(a: &Value) -> Value {
     }
     json!({"runs": histories.len(), "distinct": distinct.len(), "steps": steps, "violations": violations, "sample": sample,
            "step_kinds": kinds, "classes": classes})
+}
+
+
+// ---------------------------------------------------------------------------------------------
+// Cases of spec/rules/Lifecycle.tla: one account through destroy / fund / create / store sequences.
+// revm State must agree with the rule (the rule is bound to the EVM), ParallelState with both.
+
+fn actor_runtime() -> Vec<u8> {
+    // mode = calldata[0x40]; 2: SELFDESTRUCT(RCV); 1: SSTORE(calldata[0], calldata[0x20]); else STOP
+    let mut c = vec![0x60, 0x40, 0x35, 0x80, 0x60, 0x02, 0x14, 0x60, 0x11, 0x57, 0x60, 0x01, 0x14, 0x60, 0x28, 0x57, 0x00, 0x5b, 0x73];
+    c.extend_from_slice(a(RCV).as_slice());
+    c.push(0xff);
+    assert_eq!(c.len(), 40);
+    c.extend_from_slice(&[0x5b, 0x60, 0x20, 0x35, 0x60, 0x00, 0x35, 0x55, 0x00]);
+    c
+}
+/// init code: SSTORE(1, 7); return the actor runtime
+fn actor_init() -> Vec<u8> {
+    let rt = actor_runtime();
+    let mut c = vec![0x60, 0x07, 0x60, 0x01, 0x55, 0x60, rt.len() as u8, 0x60, 0x11, 0x60, 0x00, 0x39, 0x60, rt.len() as u8, 0x60, 0x00, 0xf3];
+    assert_eq!(c.len(), 17);
+    c.extend_from_slice(&rt);
+    c
+}
+fn actor_address() -> Address {
+    let mut buf = vec![0xff];
+    buf.extend_from_slice(a(FACTORY).as_slice());
+    buf.extend_from_slice(&[0u8; 32]);
+    buf.extend_from_slice(keccak256(actor_init()).as_slice());
+    Address::from_slice(&keccak256(buf)[12..])
+}
+fn lifecycle_db(image: &str) -> InMemoryDB {
+    let mut accounts = account::mock_block_accounts(4);
+    let mut codes: HashMap<revm_primitives::B256, Bytecode> = HashMap::default();
+    let f = Bytecode::new_raw(factory_code().into());
+    codes.insert(f.hash_slow(), f.clone());
+    accounts.insert(a(FACTORY), PlainAccount { info: AccountInfo { nonce: 1, code_hash: f.hash_slow(), code: Some(f), ..Default::default() }, storage: Default::default() });
+    match image {
+        "indb" => {
+            let bc = Bytecode::new_raw(actor_runtime().into());
+            codes.insert(bc.hash_slow(), bc.clone());
+            accounts.insert(actor_address(), PlainAccount {
+                info: AccountInfo { nonce: 1, balance: U256::from(9), code_hash: bc.hash_slow(), code: Some(bc), ..Default::default() },
+                storage: [(U256::from(0), U256::from(21)), (U256::from(3), U256::from(23))].into_iter().collect(),
+            });
+        }
+        "funded" => {
+            accounts.insert(actor_address(), PlainAccount {
+                info: AccountInfo { nonce: 0, balance: U256::from(4), code_hash: KECCAK_EMPTY, code: None, ..Default::default() },
+                storage: Default::default(),
+            });
+        }
+        _ => {}
+    }
+    InMemoryDB::new(accounts, codes, HashMap::default())
+}
+fn lifecycle_tx(op: &str, sender: usize, nonce: u64) -> TxEnv {
+    let word = |v: u64| { let mut w = [0u8; 32]; w[24..].copy_from_slice(&v.to_be_bytes()); w };
+    let x = actor_address();
+    let (to, data, value): (Address, Vec<u8>, u64) = match op {
+        "destroy" => (x, [word(0), word(0), word(2)].concat(), 0),
+        "fund" => (x, vec![], 3),
+        "create" => (a(FACTORY), actor_init(), 0),
+        "store0" => (x, [word(0), word(5), word(1)].concat(), 0),
+        "clear1" => (x, [word(1), word(0), word(1)].concat(), 0),
+        "store3" => (x, [word(3), word(8), word(1)].concat(), 0),
+        _ => (x, vec![], 0),
+    };
+    TxEnv { caller: account::mock_eoa_address(sender), kind: TxKind::Call(to), data: Bytes::from(data), value: U256::from(value),
+            gas_limit: 400_000, gas_price: 1, nonce, ..Default::default() }
+}
+fn observe<DB: Database>(db: &mut DB) -> String
+where
+    DB::Error: std::fmt::Debug,
+{
+    let x = actor_address();
+    let info = match db.basic(x) {
+        Ok(i) => i,
+        Err(e) => return format!("error {e:?}"),
+    };
+    // an account that exists only as an empty shell is "not existing" for the EVM
+    let exists = info.as_ref().is_some_and(|i| !i.is_empty());
+    let (code, nonce, bal) = info.as_ref().map_or((false, 0, U256::ZERO), |i| (i.code_hash != KECCAK_EMPTY, i.nonce, i.balance));
+    let slot = |db: &mut DB, k: u64| match db.storage(x, U256::from(k)) {
+        Ok(v) => format!("{v}"),
+        Err(e) => format!("error {e:?}"),
+    };
+    format!("exists={exists} code={code} nonce={nonce} bal={bal} s0={} s1={} s3={}", slot(db, 0), slot(db, 1), slot(db, 3))
+}
+
+pub fn cmd_lifecycle(a: &Value) -> Value {
+    let text = std::fs::read_to_string(a["cases"].as_str().unwrap()).expect("cases file");
+    let cases: Vec<Value> = serde_json::from_str(&text).expect("cases json");
+    let stride = a["stride"].as_u64().unwrap_or(1) as usize;
+    let offset = a["offset"].as_u64().unwrap_or(0) as usize;
+    let (mut runs, mut steps) = (0usize, 0usize);
+    let mut violations: Vec<Value> = Vec::new();
+    let mut model_mismatch: Vec<Value> = Vec::new();
+    let mut sample = Value::Null;
+    for c in cases.iter().skip(offset).step_by(stride) {
+        let spec = if c["fork"] == "shanghai" { SpecId::SHANGHAI } else { SpecId::CANCUN };
+        let db = Arc::new(lifecycle_db(c["image"].as_str().unwrap()));
+        let mut par: ParallelState<Arc<InMemoryDB>> = ParallelState::new(db.clone(), true, false);
+        let mut seq: State<_> = StateBuilder::new().with_bundle_update().with_database_ref(db.clone()).build();
+        let mut nonces = [1u64; 4];
+        runs += 1;
+        let ops: Vec<&str> = c["ops"].as_array().unwrap().iter().map(|o| o.as_str().unwrap()).collect();
+        let mut bad = false;
+        for (k, op) in ops.iter().enumerate() {
+            let sender = k % 3;
+            let tx = lifecycle_tx(op, sender, nonces[sender]);
+            nonces[sender] += 1;
+            let (x, y) = (transact(&mut par, spec, tx.clone()), transact(&mut seq, spec, tx));
+            steps += 1;
+            let e = &c["expect"][k];
+            let want = format!("exists={} code={} nonce={} bal={} s0={} s1={} s3={}", e["exists"], e["code"], e["nonce"], e["bal"], e["s0"], e["s1"], e["s3"]);
+            let (op_, os) = (observe(&mut par), observe(&mut seq));
+            if os != want && model_mismatch.len() < 5 {
+                model_mismatch.push(json!({"case": c, "step": k, "revm_state": os, "rule": want}));
+                bad = true;
+            }
+            if (x != y || op_ != os) && violations.len() < 8 {
+                violations.push(json!({"case": c, "step": k, "what": format!("after {:?} ({} fork, image {}): ParallelState serves [{op_}] result {}, revm State serves [{os}] result {}",
+                    &ops[..=k], c["fork"], c["image"], &x[..x.len().min(80)], &y[..y.len().min(80)])}));
+                bad = true;
+            }
+            if bad {
+                break;
+            }
+        }
+        if !bad {
+            seq.merge_transitions(BundleRetention::Reverts);
+            let (x, y) = (par.parallel_take_bundle(BundleRetention::Reverts), seq.take_bundle());
+            if let Some(d) = bundle_diff(&y, &x) && violations.len() < 8 {
+                violations.push(json!({"case": c, "step": ops.len(), "what": format!("after {ops:?}: extracted bundle differs: {d}")}));
+            }
+        }
+        if sample.is_null() {
+            sample = json!({"case": c, "observed": observe(&mut par)});
+        }
+    }
+    json!({"runs": runs, "steps": steps, "violations": violations, "model_mismatch": model_mismatch, "sample": sample, "cases": cases.len()})
 }
